@@ -68,6 +68,17 @@ Definition key_eqb (q : quirks) (a b : key) : bool := (fst a =? fst b) && kargs_
    memory iff they hold the same identity; `poll` records whole-array overwrites by identity. *)
 Definition cell : Type := (arr * nat)%type.
 
+(* HashArray(x) is a *view* of the caller's memory and is what the memo table stores as its key: if that
+   memory changes later, the stored key no longer equals what it was hashed as and the entry is dead (until
+   the old values come back).  `src` says which memory a stored key looks at. *)
+Inductive src : Type :=
+| SNone                          (* the key owns its values *)
+| SBufConv (b : nat) (v : Z)     (* view v of buffer b (argument of trs2llh / llh2trs) *)
+| SBufRot (b : nat) (v : Z)      (* lat / lon columns of view v of buffer b *)
+| SCellRot (c : arr * nat).      (* lat / lon columns of a converted position living in cell c *)
+
+Definition lentry : Type := ((key * src) * cell)%type.
+
 Record obj : Type := mkObj {
   okind : Z;                    (* 0 plain ndarray, 1 TrsPosition, 2 LlhPosition *)
   obuf : nat;                   (* buffer holding the values *)
@@ -82,7 +93,7 @@ Record world : Type := mkW {
   bufs : list arr;
   objs : list obj;
   slots : list (Z * nat);           (* variable -> object, latest binding first *)
-  lrus : Z -> list (key * cell);    (* one functools.lru_cache table per decorated function *)
+  lrus : Z -> list lentry;          (* one functools.lru_cache table per decorated function *)
   poll : list (nat * Z);            (* cell identity -> value it was overwritten with *)
   nextid : nat;
   reg : option nat;                 (* identity of the memory the last returned result lives in, if anything else holds it *)
@@ -100,7 +111,7 @@ Definition set_next w x := mkW (bufs w) (objs w) (slots w) (lrus w) (poll w) x (
 Definition set_reg w x := mkW (bufs w) (objs w) (slots w) (lrus w) (poll w) (nextid w) x (fired w).
 Definition set_fired w x := mkW (bufs w) (objs w) (slots w) (lrus w) (poll w) (nextid w) (reg w) x.
 
-Definition set_lru (w : world) (fn : Z) (l : list (key * cell)) : world :=
+Definition set_lru (w : world) (fn : Z) (l : list lentry) : world :=
   set_lrus w (fun g => if g =? fn then l else lrus w g).
 
 Definition o_set_cache (o : obj) (c : option cell) (d : list (Z * cell)) : obj :=
@@ -187,6 +198,23 @@ Definition rot_args_raw (x : arr) : list karg :=
 
 Definition cap : nat := 128.
 
+Definition view_of (w : world) (b : nat) (v : Z) : arr := contents w (mkObj 1 b v None None [] false).
+
+Definition cur_args (w : world) (s : src) : option (list karg) :=
+  match s with
+  | SNone => None
+  | SBufConv b v => Some [(false, view_of w b v)]
+  | SBufRot b v => Some (rot_args (view_of w b v))
+  | SCellRot c => Some (rot_args (resolve w c))
+  end.
+
+(* does the stored key still show the values it was hashed with? *)
+Definition alive (w : world) (k : key) (s : src) : bool :=
+  match cur_args w s with
+  | None => true
+  | Some a => kargs_eqb all_off a (snd k)
+  end.
+
 Section Machine.
   Variable pf : Z -> Z -> list karg -> option arr.
   Variable q : quirks.
@@ -195,18 +223,21 @@ Section Machine.
   Definition descs_differ (a b : key) : bool :=
     negb (zlist_eqb (concat (map (fun x => fst (snd x)) (snd a))) (concat (map (fun x => fst (snd x)) (snd b)))).
 
-  Definition lru_get (w : world) (fn ext : Z) (args : list karg) : world * option cell :=
+  Definition keq_w (w : world) (a b : key * src) : bool :=
+    key_eqb q (fst a) (fst b) && (negb (q_ro q) || alive w (fst b) (snd b)).
+
+  Definition lru_get (w : world) (fn ext : Z) (args : list karg) (sr : src) : world * option cell :=
     let k := (ext, args) in
-    match lru_take (key_eqb q) k (lrus w fn) with
+    match lru_take (keq_w w) (k, sr) (lrus w fn) with
     | Some (e, rest) =>
         let w1 := set_lru w fn (e :: rest) in
-        (if descs_differ k (fst e) then set_fired w1 true else w1, Some (snd e))
+        (if descs_differ k (fst (fst e)) then set_fired w1 true else w1, Some (snd e))
     | None =>
         match pf fn ext args with
         | None => (w, None)
         | Some v =>
             let c := (v, nextid w) in
-            (set_next (set_lru w fn (lru_insert cap k c (lrus w fn))) (S (nextid w)), Some c)
+            (set_next (set_lru w fn (lru_insert cap (k, sr) c (lrus w fn))) (S (nextid w)), Some c)
         end
     end.
 
@@ -223,7 +254,7 @@ Section Machine.
     match ochild o with
     | Some c => (w, Some c)
     | None =>
-        let (w1, oc) := lru_get w (convfn (okind o)) 0 [(false, contents w o)] in
+        let (w1, oc) := lru_get w (convfn (okind o)) 0 [(false, contents w o)] (SBufConv (obuf o) (oview o)) in
         match oc with
         | None => (w1, None)
         | Some c =>
@@ -248,7 +279,13 @@ Section Machine.
         match ollh with
         | None => (w1, None)
         | Some llh =>
-            let (w2, oc) := lru_get w1 fn 0 (rot_args llh) in
+            let o1 := get_obj w1 p in
+            let sr := match fst llh with
+                      | [_; _; _] => if okind o1 =? 2 then SBufRot (obuf o1) (oview o1)
+                                     else match ochild o1 with Some c => SCellRot c | None => SNone end
+                      | _ => SNone                 (* numpy scalars are copies *)
+                      end in
+            let (w2, oc) := lru_get w1 fn 0 (rot_args llh) sr in
             match oc with
             | None => (w2, None)
             | Some c =>
@@ -338,7 +375,8 @@ Section Machine.
 
   (* raw call of a memoised function on a plain array: the argument may be left read-only *)
   Definition do_raw (w : world) (p : nat) (fn ext : Z) (args : list karg) (mark : bool) : world * obs :=
-    let (w1, oc) := lru_get w fn ext args in
+    let (w1, oc) := lru_get w fn ext args
+                      (if mark then SBufConv (obuf (get_obj w p)) (oview (get_obj w p)) else SNone) in
     let w2 := if mark && q_ro q then upd_obj w1 p (fun o => o_set_ro o true) else w1 in
     let aux := if q_ro q then 0 else 1 in
     match oc with
@@ -421,10 +459,10 @@ Section Machine.
           end
       end.
 
-  Fixpoint flood (n : nat) (l : list (key * cell)) : list (key * cell) :=
+  Fixpoint flood (n : nat) (l : list lentry) : list lentry :=
     match n with
     | O => l
-    | S m => flood m (lru_insert cap ((-1, []) : key) ((nothing, 0%nat) : cell) l)
+    | S m => flood m (lru_insert cap (((-1, []) : key), SNone) ((nothing, 0%nat) : cell) l)
     end.
 
   Inductive op : Type :=
@@ -498,8 +536,20 @@ Section Machine.
     end.
 End Machine.
 
-Arguments NewArr s a.
-Arguments NewPos s sys a.
+(* equality of observation lists *)
+Definition obs_eqb (a b : option (arr * Z)) : bool :=
+  match a, b with
+  | None, None => true
+  | Some (x, i), Some (y, j) => arr_eqb x y && (i =? j)
+  | _, _ => false
+  end.
+
+Fixpoint forallb2_obs (a b : list (option (arr * Z))) : bool :=
+  match a, b with
+  | [], [] => true
+  | x :: r, y :: t => obs_eqb x y && forallb2_obs r t
+  | _, _ => false
+  end.
 
 (* ------------------------------------------------------------------------------------ correspondence *)
 (* table of reference results of one run: (fn, ext, args, result) *)
